@@ -65,6 +65,9 @@ class Terminologies(dict):
     """
     loading = {}
     reload_cache = False
+    # Guards the check-then-act sequences on the loaded and the loading table,
+    # since loader threads resolving includes use them at the same time.
+    _lock = threading.RLock()
 
     def load(self, url):
         """
@@ -73,12 +76,17 @@ class Terminologies(dict):
         :param url: location of an odML XML file.
         :return: The odML document loaded from url.
         """
-        if url in self:
-            return self[url]
+        with self._lock:
+            if url in self:
+                return self[url]
+            loader = self.loading.get(url)
 
-        if url in self.loading:
-            self.loading[url].join()
-            self.loading.pop(url, None)
+        if loader is not None:
+            # Never wait while holding the lock, the loader might need it.
+            loader.join()
+            with self._lock:
+                if self.loading.get(url) is loader:
+                    self.loading.pop(url, None)
             return self.load(url)
 
         return self._load(url)
@@ -108,8 +116,11 @@ class Terminologies(dict):
             # e.g. an include of the file that cannot be resolved
             print("Failed to load %s: %s" % (url, exc))
             term = None
-        self[url] = term
-        return term
+        # The first result wins: all callers get the same cached object.
+        with self._lock:
+            if url not in self:
+                self[url] = term
+            return self[url]
 
     def deferred_load(self, url):
         """
@@ -117,10 +128,12 @@ class Terminologies(dict):
 
         :param url: location of an odML XML file.
         """
-        if url in self or url in self.loading:
-            return
-        self.loading[url] = threading.Thread(target=self._load, args=(url,))
-        self.loading[url].start()
+        with self._lock:
+            if url in self or url in self.loading:
+                return
+            loader = threading.Thread(target=self._load, args=(url,))
+            self.loading[url] = loader
+            loader.start()
 
     def refresh(self, url):
         """
